@@ -220,11 +220,13 @@ def _viol(res, sig, kind, detail):
     res.violations.append(Violation(sig=sig, kind=kind, detail=detail, replay={"detail": detail}))
 
 
-def values_equal(e1, e2, q, res):
+def values_equal(e1, e2, q, res, env_extra=None):
     """z3: e1 and e2 evaluate equally for all atom values (on every path); -> (ok, witness-env-text)"""
     from pymbolic.mapper.evaluator import EvaluationMapper
     sym.set_family("int")
     env = _env()
+    if env_extra:
+        env.update(env_extra())
 
     def harness():
         return H.outcome(lambda: EvaluationMapper(env)(e1) if isinstance(e1, p.Expression) else e1), \
@@ -460,6 +462,31 @@ def check_matchpy_match():
             _viol(res, f"matchpy replace_all {subj}", "matchpy-replace",
                   f"replace_all({subj}, x*z*rest -> R*rest) = {out}; with R = x*z this no longer has the value of the subject "
                   f"(x={sym.model_value(model, env['x'])}, y={sym.model_value(model, env['y'])}, z={sym.model_value(model, env['z'])})")
+    # a dot-wildcard rule applied below other nodes: f(c, w_) -> 42*w_ ; interpreting f(u, t) as 42*t the value of the
+    # subject must not change (calls, subscripts, tuples of arguments, sums and products around the match)
+    cvar, d_, e_, g_, arr_ = V("c"), V("d"), V("e"), V("g"), V("arr")
+    wd = p.DotWildcard("w_")
+    fc = lambda t: p.Call(f, (cvar, t))  # noqa: E731
+    subjects = [fc(d_), S(fc(d_), 1), P(2, fc(d_)), p.Call(g_, (fc(d_),)), p.Call(g_, (fc(d_), e_)), p.Call(g_, (e_, fc(d_))),
+                p.Subscript(arr_, fc(d_)), p.Subscript(arr_, (fc(d_), 1)), p.Call(g_, (S(fc(d_), e_),)), p.Power(fc(d_), 2),
+                p.Call(g_, (fc(fc(d_)),)), p.If(p.Comparison(fc(d_), "<", e_), fc(e_), d_), p.Quotient(e_, fc(d_))]
+    for subj in subjects:
+        res.path_assertions += 1
+        try:
+            rule = m.make_replacement_rule(p.Call(f, (cvar, wd)), lambda w_: P(42, w_))
+            out = m.replace_all(subj, [rule])
+        except Exception as e:  # noqa: BLE001
+            _viol(res, f"matchpy replace_all nested {H.stable_text(subj)} raises", "matchpy-replace",
+                  f"replace_all({H.stable_text(subj)}, f(c, w_) -> 42*w_) raised {e!r}")
+            continue
+        def extra():
+            return {"d": sym.var("d", "int")[0], "e": sym.var("e", "int")[0], "f": (lambda u, t: 42 * t)}
+        # subscript indices as tuples on both sides (the bridge may write every index as a tuple)
+        ok, wit = values_equal(canon(out, AC_MATCHPY, False), canon(subj, AC_MATCHPY, False), q, res, env_extra=extra)
+        if not ok:
+            _viol(res, f"matchpy replace_all nested {H.stable_text(subj)}", "matchpy-replace",
+                  f"replace_all({H.stable_text(subj)}, f(c, w_) -> 42*w_) = {H.stable_text(out)}, which is not the subject with each "
+                  f"f(c, t) replaced by 42*t (values differ at {wit})")
     return H.finish(res, [], q)
 
 # }}}
